@@ -388,6 +388,7 @@ func TestVerif_C18_managedresource(t *testing.T) {
 
 type c18ImmCase struct {
 	P  int       `json:"p"`
+	X  int       `json:"x,omitempty"` // scale-free interval code (c18Dur)
 	F  []c18Op   `json:"f"`
 	Gs [][]c18Op `json:"gs"`
 }
@@ -396,16 +397,29 @@ func c18ImmutableInterp(t *testing.T, ic c18ImmCase) kit.Verdict {
 	v := c18NewV()
 	c := c18Case{P: ic.P, Gs: ic.Gs}
 	c18CaseClasses(v, c)
-	interval := time.Duration(c.P) * c18ms
+	interval := c18Dur(ic.P, ic.X)
+	if ic.X != 0 {
+		v.class(fmt.Sprintf("interval=%v", interval))
+	}
 	log, res := c18Play(t, c, func(clk *c18Clock, log *c18Log) (func(g, i int, op c18Op), func()) {
 		var nexec atomic.Int64
-		ir := syncx.NewImmutableResource(func() (interface{}, error) {
+		var ir *syncx.ImmutableResource
+		ir = syncx.NewImmutableResource(func() (interface{}, error) {
 			id := int(nexec.Add(1))
 			plan := c18Op{}
 			if len(ic.F) > 0 {
 				plan = ic.F[(id-1)%len(ic.F)]
 			}
 			st := clk.now()
+			if plan.R == 1 && !c18StampOverflows(st.T, interval) { // (with the known overflow the nested Get would fetch again, without end)
+				// re-entrant: fetch asks the same resource (no lock is held during
+				// fetch; the refresh stamp is already set, so this cannot recurse)
+				nev := c18Ev{G: -1, I: id, Op: c18Op{K: "get"}, Sub: "nested-get"}
+				nev.Inv = clk.now()
+				_, _ = ir.Get()
+				nev.Ret = clk.now()
+				log.ev(nev)
+			}
 			c18Sleep(plan.H)
 			en := clk.now()
 			log.exec(c18Exec{ID: id, Start: st, End: en, Fail: plan.A != 0, Pan: plan.A == 2})
@@ -459,6 +473,9 @@ func c18ImmutableInterp(t *testing.T, ic c18ImmCase) kit.Verdict {
 	}
 	for _, ev := range log.evs {
 		name := fmt.Sprintf("immutable-resource(interval %v) Get g%d#%d", interval, ev.G, ev.I)
+		if ev.Sub == "nested-get" {
+			v.class("re-entrant-fetch")
+		}
 		if ev.Foreign != "" {
 			v.failf("%s panicked with a value fetch did not raise: %s", name, ev.Foreign)
 			continue
@@ -503,7 +520,7 @@ func c18ImmutableInterp(t *testing.T, ic c18ImmCase) kit.Verdict {
 				} else {
 					must = false // another caller's fetch at the very same instant
 				}
-			case e.Start.T+interval >= ev.Inv.T:
+			case ev.Inv.T-e.Start.T <= interval:
 				must = false
 				v.class("get-within-interval")
 			}
@@ -528,11 +545,18 @@ func c18ImmutableInterp(t *testing.T, ic c18ImmCase) kit.Verdict {
 
 func c18ImmutableGen(rt *rapid.T) c18ImmCase {
 	c := c18ImmCase{P: rapid.SampledFrom([]int{0, 1, 2, 3, 5}).Draw(rt, "interval")}
+	// Intervals stay small on purpose: ImmutableResource is not named by the
+	// statement, so this rule is not widened to scale-free intervals (with
+	// intervals next to MaxInt64 lastTime+interval overflows in maybeRefresh;
+	// recorded as an observation in FINDINGS.md, not asserted).
 	nf := rapid.IntRange(1, 4).Draw(rt, "nf")
 	for i := 0; i < nf; i++ {
 		f := c18Op{H: c18Hold(rt), A: rapid.SampledFrom([]int{0, 0, 1, 1, 1, 2}).Draw(rt, "outcome")}
 		if f.A == 1 {
 			f.E = c18ErrKind(rt, false)
+		}
+		if rapid.IntRange(0, 4).Draw(rt, "reentrant") == 0 {
+			f.R = 1
 		}
 		c.F = append(c.F, f)
 	}
